@@ -236,6 +236,8 @@ impl Check for C03Dynamic {
                         None => {
                             if e.as_str().unwrap_or("").starts_with("regex-literal-identity") {
                                 "hook-value-mismatch:regex-literal-identity".to_string()
+                            } else if classes.iter().any(|c| c == "apply-surplus-arg") && e.as_str().unwrap_or("").starts_with("method hook") {
+                                "hook-value-mismatch:apply-surplus-argument".to_string()
                             } else {
                                 "hook-value-mismatch".to_string()
                             }
